@@ -144,3 +144,19 @@ fn k_sqpk_chunk_delete_expand() {
     }
     kani::cover!(true, "reachable");
 }
+
+//@unit props=C03,C15 label=B tier=quick native=1 fn=patch::{get_expansion_folder,get_expansion_folder_sub} bound="exhaustive by execution: all 65536 ids"
+//@desc the expansion folder is "ffxiv" for expansion 0 and "ex<n>" otherwise; for a sub id the expansion is its high byte
+#[test]
+fn native_expansion_folders() {
+    let mut cases = 0u64;
+    for id in 0..=u16::MAX {
+        let want = if id == 0 { "ffxiv".to_string() } else { format!("ex{id}") };
+        assert_eq!(get_expansion_folder(id), want, "expansion folder of {id}");
+        let hi = id >> 8;
+        let want_sub = if hi == 0 { "ffxiv".to_string() } else { format!("ex{hi}") };
+        assert_eq!(get_expansion_folder_sub(id), want_sub, "expansion folder of sub id {id:#06x}");
+        cases += 2;
+    }
+    println!("NATIVE native_expansion_folders cases={cases}");
+}
